@@ -422,12 +422,16 @@ func getTcbInfo(fmspc string, getter trust.HTTPSGetter, collateral *Collateral) 
 		}
 	}
 	// The values that drive the verdict must be the ones whose raw bytes are
-	// signature-checked: decode them from the signed member itself.
-	if err := json.Unmarshal(tcbInfoRawBody, &collateral.TdxTcbInfo.TcbInfo); err != nil {
+	// signature-checked: decode them from the signed member itself, into a
+	// fresh value (json.Unmarshal merges into its target, so anything decoded
+	// from the rest of the response must not remain).
+	var tcbInfo pcs.TcbInfo
+	if err := json.Unmarshal(tcbInfoRawBody, &tcbInfo); err != nil {
 		return &trust.AttestationRecreationErr{
 			Msg: fmt.Sprintf("unable to unmarshal tcbInfo: %v", err),
 		}
 	}
+	collateral.TdxTcbInfo.TcbInfo = tcbInfo
 	collateral.TcbInfoBody = tcbInfoRawBody
 	return nil
 }
@@ -463,12 +467,15 @@ func getQeIdentity(getter trust.HTTPSGetter, collateral *Collateral) error {
 			Msg: err.Error(),
 		}
 	}
-	// Decode the identity from the signed member itself (see getTcbInfo).
-	if err := json.Unmarshal(qeIdentityRawBody, &collateral.QeIdentity.EnclaveIdentity); err != nil {
+	// Decode the identity from the signed member itself, into a fresh value
+	// (see getTcbInfo).
+	var enclaveIdentity pcs.EnclaveIdentity
+	if err := json.Unmarshal(qeIdentityRawBody, &enclaveIdentity); err != nil {
 		return &trust.AttestationRecreationErr{
 			Msg: fmt.Sprintf("unable to unmarshal enclaveIdentity: %v", err),
 		}
 	}
+	collateral.QeIdentity.EnclaveIdentity = enclaveIdentity
 	collateral.EnclaveIdentityBody = qeIdentityRawBody
 	return nil
 }
